@@ -1,6 +1,7 @@
 package main
 
 import (
+	"sort"
 	"fmt"
 	"go/ast"
 	"go/token"
@@ -758,7 +759,19 @@ func (c *FnCtx) scanWrites(nodes []ast.Node) *loopInfo {
 
 // havoc replaces the loop-modified parts of the state by fresh values.
 func (c *FnCtx) havoc(st *State, li *loopInfo) {
+	// (deterministic order: the names of the havocked values, and with them the SMT text, must not depend on map
+	// iteration order)
+	var assigned []types.Object
 	for obj := range li.assignedVars {
+		assigned = append(assigned, obj)
+	}
+	sort.Slice(assigned, func(i, j int) bool {
+		if assigned[i].Pos() != assigned[j].Pos() {
+			return assigned[i].Pos() < assigned[j].Pos()
+		}
+		return assigned[i].Name() < assigned[j].Name()
+	})
+	for _, obj := range assigned {
 		b, ok := st.vars[obj]
 		if !ok {
 			continue
@@ -877,7 +890,7 @@ func (c *FnCtx) evalInvariant(cl *Clause, loop ast.Stmt, st *State) string {
 	}
 	args := map[string]string{}
 	for _, nm := range cl.Params {
-		if g, ok := st.ghost[nm]; ok && (nm == "visited" || nm == "idx" || nm == "ranged") {
+		if g, ok := st.ghost[nm]; ok && (nm == "visited" || nm == "idx" || nm == "ranged" || nm == "outeridx") {
 			if _, obj := scope.LookupParent(nm, bodyPos); obj == nil {
 				args[nm] = g
 				continue
@@ -1033,10 +1046,13 @@ func (c *FnCtx) execRange(x *ast.RangeStmt, st *State, label string) Outs {
 	invs := c.loopInvariants(x)
 	keyObj, valObj := c.rangeVar(x.Key, x.Tok), c.rangeVar(x.Value, x.Tok)
 	outerGhost := map[string]string{}
-	for _, g := range []string{"visited", "idx", "ranged"} {
+	for _, g := range []string{"visited", "idx", "ranged", "outeridx"} {
 		if v, ok := st.ghost[g]; ok {
 			outerGhost[g] = v
 		}
+	}
+	if v, ok := outerGhost["idx"]; ok {
+		st.ghost["outeridx"] = v // a nested loop may speak about the enclosing loop's iteration count
 	}
 	define := func(s *State, obj types.Object, e ast.Expr, v string) {
 		if e == nil {
@@ -1075,7 +1091,7 @@ func (c *FnCtx) execRange(x *ast.RangeStmt, st *State, label string) Outs {
 		}
 		// the ghost loop variables of this loop end here; those of an enclosing loop are visible again
 		if out.normal != nil {
-			for _, g := range []string{"visited", "idx", "ranged"} {
+			for _, g := range []string{"visited", "idx", "ranged", "outeridx"} {
 				if old, had := outerGhost[g]; had {
 					out.normal.ghost[g] = old
 				} else {
